@@ -158,6 +158,8 @@ class SetInterp(object):
         self.env = _Env(self._store)
         self.elems = dict(elems or {})    # normalised element text -> mask (singletons)
         self.model = model                # callable(interp, expr) -> plain value or None
+        self.if_model = None              # callable(interp, If statement) -> True when it executed the statement itself
+        self.fold = None                  # callable(expr) -> constant value of a name / expression, or None
 
     # -- public (plain values) ----------------------------------------------
     def eval(self, e):
@@ -183,6 +185,10 @@ class SetInterp(object):
         key = norm(e)
         if key in self.elems:
             return self.elems[key]
+        if self.fold is not None and not isinstance(e, ast.Constant):
+            v = self.fold(e)      # a module-level constant naming a known element (_INNER_NAME = 'next')
+            if isinstance(v, str) and repr(v) in self.elems:
+                return self.elems[repr(v)]
         raise Unmodelled('set element %s is not a known symbolic element' % key)
 
     def _mask(self, e):
@@ -391,6 +397,8 @@ class SetInterp(object):
                 raise Unmodelled('statement %s touches tracked sets' % norm(st))
             return
         if isinstance(st, ast.If):
+            if self.if_model is not None and self.if_model(self, st):
+                return
             # guards that only raise / return early without touching tracked names are skipped
             stores = set()
             for n in ast.walk(st):
